@@ -120,7 +120,12 @@ namespace c09
         template <class T> static void put(W &w, const T &v)
         {
             size_t before = w.st.storage().size();
+            // the owner keeps a copy of what has been written so far (a snapshot for a retransmission) and looks at the storage
+            // twice in a row: the accessor is a query
+            std::string so_far = w.st.storage();
+            if (so_far.size() != before || w.st.storage().size() != before) kit::violate("C09/writers-disagree@serializer", "copying storage() of a string_storage changed it: %zu bytes were written, the copy has %zu, the storage now %zu", before, so_far.size(), w.st.storage().size());
             igris::serialize(v, w.st);
+            if (w.st.storage().compare(0, before, so_far) != 0) kit::violate("C09/writers-disagree@serializer", "the %zu bytes written before this value are no longer at the front of the storage", before);
             std::string one = igris::serialize(v);
             const std::string &all = w.st.storage();
             if (all.size() - before != one.size() || memcmp(all.data() + before, one.data(), one.size()) != 0)
